@@ -160,8 +160,21 @@ pub fn check_case(c: &Case, rep: &mut Report) {
     let challenge = ntlm::build_challenge(c.flags, &c.server_challenge, &c.target_name, &c.target_info);
     let (d, u, p, fh) = (c.domain.clone(), c.user.clone(), c.password.clone(), c.from_hash);
     let ch = challenge.clone();
+    let round_seed = fnv(&c.server_challenge) ^ fnv(c.user.as_bytes());
     let res = mon::guarded(move || {
         let mut n = if fh { Ntlm::from_hash(d, u, &nt_hash) } else { Ntlm::new(d, u, p) };
+        // one case in four: the context has already answered one or two other exchanges (a server that restarts the
+        // exchange, an application that reconnects with the context it holds); the token judged is the last one
+        let earlier = if round_seed % 4 == 0 { 1 + (round_seed / 4 % 2) as usize } else { 0 };
+        for k in 0..earlier {
+            let mut r0 = Rng::derive(round_seed, "C15-earlier", k as u64, 0);
+            let mut sc0 = [0u8; 8];
+            sc0.copy_from_slice(&r0.bytes(8));
+            let ti0 = ntlm::av_pairs(&[(2, r0.bytes(6)), (7, r0.bytes(8))]);
+            let ch0 = ntlm::build_challenge(BASE_FLAGS, &sc0, b"", &ti0);
+            let _ = n.create_negotiate_message();
+            let _ = n.read_challenge_message(&ch0);
+        }
         let neg = n.create_negotiate_message().map_err(|e| client::err_kind(&e))?;
         let auth = n.read_challenge_message(&ch).map_err(|e| client::err_kind(&e))?;
         Ok::<_, String>((neg, auth))
